@@ -222,10 +222,10 @@ namespace mfuse
 
         uint32_t prev_opcode_pos;
 
-        int16_t m_iVarStackOffset;
-        int16_t m_iInternalMaxVarStackOffset;
-        int16_t m_iMaxExternalVarStackOffset;
-        int16_t m_iMaxCallStackOffset;
+        int32_t m_iVarStackOffset;
+        int32_t m_iInternalMaxVarStackOffset;
+        int32_t m_iMaxExternalVarStackOffset;
+        int32_t m_iMaxCallStackOffset;
         uint16_t iBreakJumpLocCount;
         uint16_t iContinueJumpLocCount;
 
@@ -290,8 +290,8 @@ namespace mfuse
     private:
         StringDictionary& dict;
         const OutputInfo* info;
-        int16_t m_iInternalMaxVarStackOffset;
-        int16_t m_iMaxExternalVarStackOffset;
+        int32_t m_iInternalMaxVarStackOffset;
+        int32_t m_iMaxExternalVarStackOffset;
         bool compileSuccess;
     };
 
